@@ -55,7 +55,7 @@ def sig_of(v):
         # one class per creation request and place; the privilege numbers gained are listed in the report
         return "/".join(str(x) for x in [v.get("prop"), what, "via%s" % st.get("via")] + ([] if st.get("shape") in (None, "full") else ["access-field-" + st["shape"]]))
     if op == "kick":
-        return "%s/%s/ban%s" % (v.get("prop"), what, st.get("ban")) + ("/bystander-%s-address" % st.get("third") if "bystander" in what else "")
+        return "%s/%s/ban%s" % (v.get("prop"), what, st.get("ban")) + ("/bystander-%s-address" % st.get("third") if "bystander" in what else "") + ("/shared-account" if st.get("shared") else "")
     if op == "upd":
         return "%s/%s/via%s" % (v.get("prop"), what, st.get("via"))
     if op == "rt":
@@ -66,7 +66,7 @@ def sig_of(v):
 def _case_of(ev):
     """The script (input) part of a logged event."""
     keys = {"handle": ("op", "t", "k", "acc", "rd"), "create": ("op", "via", "by", "acc", "login", "want", "shape"),
-            "kick": ("op", "acc", "tacc", "ban", "third", "pacc"), "rt": ("op", "S", "bytes", "names"),
+            "kick": ("op", "acc", "tacc", "ban", "third", "pacc", "shared"), "rt": ("op", "S", "bytes", "names"),
             "upd": ("op", "via", "S", "old", "bytes")}.get(ev.get("op"), ())
     return {k: ev[k] for k in keys if k in ev}
 
